@@ -50,6 +50,11 @@ unsafe fn shim_get_unchecked_from<'a>(s: &'a str, a: usize) -> (r: &'a str)
     ensures r.spec_bytes() == s.spec_bytes().subrange(a as int, s.spec_bytes().len() as int),
 { unsafe { s.get_unchecked(a..) } }
 #[verifier::external_body]
+fn shim_index_to<'a>(s: &'a str, b: usize) -> (r: &'a str)
+    requires b <= s.spec_bytes().len(), is_char_boundary(s.spec_bytes(), b as int),
+    ensures r.spec_bytes() == s.spec_bytes().subrange(0, b as int),
+{ &s[..b] }
+#[verifier::external_body]
 fn shim_index_range<'a>(s: &'a str, a: usize, b: usize) -> (r: &'a str)
     requires a <= b, b <= s.spec_bytes().len(), is_char_boundary(s.spec_bytes(), a as int), is_char_boundary(s.spec_bytes(), b as int),
     ensures r.spec_bytes() == s.spec_bytes().subrange(a as int, b as int),
@@ -127,7 +132,7 @@ def build(U):
     sp.keep_methods(['new_unchecked', 'start', 'end', 'get_input', 'as_str'])
     sp.rw('R7', 'debug_assert!(input.get(start..end).is_some());\n', '', regex=False)
     sp.rw('R2', 'pub(crate) unsafe fn new_unchecked', 'pub unsafe fn new_unchecked')
-    sp.rw('R3', '&self.input[self.start..self.end]', 'shim_index_range(self.input, self.start, self.end)')
+    sp.rw_slices()
     sp.ret('r', fname='new_unchecked')
     sp.contract('''        // R7: the debug assertion of the original is the precondition (every call site must establish it)
         requires start <= end, end <= input.spec_bytes().len(), is_char_boundary(input.spec_bytes(), start as int), is_char_boundary(input.spec_bytes(), end as int),
@@ -166,7 +171,7 @@ def build(U):
 
 
     tr.rw('R3', 'self.get().starts_with(string)', 'shim_starts_with(self.get(), string)')
-    tr.rw('R3', 'self.get().get(..len)', 'shim_get_to(self.get(), len)')
+    tr.rw_slices(exclude=['skip_until', 'skip'])
     tr.rw('R3', 'prefix.eq_ignore_ascii_case(string)', 'shim_eq_ignore_ascii_case(prefix, string)')
     # skip_until: `continue` inside a for loop is not supported by Verus -> contract assumed here (listed), body checked by Kani (k_input)
     tr.attr('    #[verifier::external_body]', fname='skip_until')
@@ -225,12 +230,7 @@ def build(U):
             im.drop_fns(['next'])   # Position's override of next() calls skip(1): covered by Kani (k_input), see DESIGN
         idx = 'self.pos' if name == 'Position' else 'self.cursor'
         im.rw('R3', 'cfg!(debug_assertions)', 'shim_cfg_debug_assertions()')
-        if name == 'SubInput2':
-            im.rw('R3', '&self.input[%s..self.end]' % idx, 'shim_index_range(self.input, %s, self.end)' % idx)
-            im.rw('R3', 'self.input.get_unchecked(%s..self.end)' % idx, 'shim_get_unchecked_range(self.input, %s, self.end)' % idx)
-        else:
-            im.rw('R3', '&self.input[%s..]' % idx, 'shim_index_from(self.input, %s)' % idx)
-            im.rw('R3', 'self.input.get_unchecked(%s..)' % idx, 'shim_get_unchecked_from(self.input, %s)' % idx)
+        im.rw_slices()
         vis = 'open' if name == 'Position' else 'closed'   # SubInput fields are private
         im.prepend_in_block("    %s spec fn ctx(&self) -> Ctx<'i> { %s }\n    %s spec fn off(&self) -> nat { %s as nat }" % (vis, ctx_spec, vis, off))
         U.emit(im)
